@@ -153,6 +153,15 @@ func runC14FormatList(ctx *Ctx) {
 		} else {
 			c.want = cty.ListVal(want)
 		}
+		// facts about the real library: every member of the real result is a fixed point of NFC (the model asks
+		// for the normal form of what IT computed, which differs from the reference's text under a recorded finding)
+		if _, res0, class0 := stdOut(stdlib.FormatListFunc, all); class0 == "ok" && res0.IsKnown() && !res0.IsNull() && res0.Type().IsListType() {
+			for _, el := range res0.AsValueSlice() {
+				if el.IsKnown() && !el.IsNull() && el.Type() == cty.String {
+					o.nfc(el.AsString())
+				}
+			}
+		}
 		runGlue(ctx, c)
 		// ---- independent of the harness's format reference: element i is the real format() of the i-th members
 		if judged && !bad && iterLen != 0 && len(args) > 0 {
